@@ -502,7 +502,7 @@ impl OpsWorld {
             }
             _ => {
                 v.push((Oc::Ok, 0));
-                if c.shorts && matches!(s.kind.class(), Class::Data | Class::PoolOne | Class::Plain | Class::Composite) {
+                if c.shorts && s.kind.transfers_bytes() {
                     v.push((Oc::Short, oc));
                     if matches!(s.kind.class(), Class::Data | Class::PoolOne | Class::Composite) {
                         v.push((Oc::Zero, oc));
@@ -1025,12 +1025,30 @@ impl World for OpsWorld {
         self.obs
     }
 
-    fn finish(mut self) -> Vec<Violation> {
+    fn finish(self) -> Vec<Violation> {
+        // A panic in the epilogue must not run the world's destructors.
+        let mut this = std::mem::ManuallyDrop::new(self);
+        this.finish_inner()
+    }
+}
+
+impl OpsWorld {
+    /// Stop here: something broke, leak what is left.
+    fn bail(&mut self) -> Vec<Violation> {
+        simk::shutdown();
+        talloc::disarm();
+        std::mem::take(&mut self.violations)
+    }
+
+    fn finish_inner(&mut self) -> Vec<Violation> {
         // Epilogue. 1: drop all operation futures.
         for i in 0..self.slots.len() {
             if self.slots[i].op.is_some() {
                 self.do_drop_op(i);
             }
+        }
+        if !self.violations.is_empty() {
+            return self.bail();
         }
         if let Some((op, _, _)) = self.canary.take() {
             talloc::track(|| drop(op));
@@ -1041,6 +1059,9 @@ impl World for OpsWorld {
                 let _ = self.ring.as_mut().unwrap().poll(Some(Duration::ZERO));
             });
             self.absorb_kernel_log();
+            if !self.violations.is_empty() {
+                return self.bail();
+            }
             let infl = simk::with(|k| k.inflight());
             if infl.is_empty() {
                 break;
@@ -1064,6 +1085,9 @@ impl World for OpsWorld {
             let _ = self.ring.as_mut().unwrap().poll(Some(Duration::ZERO));
         });
         self.absorb_kernel_log();
+        if !self.violations.is_empty() {
+            return self.bail();
+        }
         // 3: drop handed-out objects, the descriptor, the pool, the ring.
         talloc::track(|| {
             HELD.with(|h| h.borrow_mut().clear());
